@@ -288,11 +288,15 @@ def site_shape(fi, call):
 def site_ordinal(fi, call, wrapper, idx):
     """<shape>[~n]: n-th (source order) among the calls of the same wrapper with the same shape, omitted when unique"""
     shape = site_shape(fi, call)
-    same = []
+    same, all_sites = [], []
     for c in df.calls(fi.node, into_nested=False):
         r = idx.resolve_expr(fi.module, c.func, fi)
-        if r is not None and r.kind == "class" and (r.val.name == wrapper or (wrapper == "SelfAdjoint" and r.val.name == "Hermitian")) and site_shape(fi, c) == shape:
-            same.append(c)
+        if r is not None and r.kind == "class" and (r.val.name == wrapper or (wrapper == "SelfAdjoint" and r.val.name == "Hermitian")):
+            all_sites.append(c)
+            if site_shape(fi, c) == shape:
+                same.append(c)
+    if len(all_sites) <= 1:
+        return "only"  # the only site of this wrapper in the function: no shape needed to name it (stable under any rewrite of its argument)
     same.sort(key=lambda c: (c.lineno, c.col_offset))
     return shape if len(same) <= 1 else f"{shape}~{same.index(call) + 1 if call in same else 0}"
 
